@@ -20,21 +20,31 @@ CLAIMS = {
     "C02": _c(
         "Static analysis of the RegOp->assembler dispatch (namesake builder, operand order per form, immediates through "
         "load_imm, trait default helpers expanded), of every extern callback (computes its builder's namesake with "
-        "arguments in order and is the one passed), and of builder-set completeness across the eight assemblers.",
-        "static analysis: table-agreement lint over the dispatch match, trait defaults and extern callbacks",
+        "arguments in order and is the one passed), of builder-set completeness across the eight assemblers, and dataflow over "
+        "the hand-written x86_64 AND aarch64 clauses parsed from their dynasm source: write discipline, alias / immediate / "
+        "unwritten-lane hazards on every path, label and relative-branch targets, call helpers and prologue / epilogue by "
+        "copy propagation (x86_64) and symbolic-lane interpretation under the AAPCS64 for every operand placement (aarch64), "
+        "strides and frame constants, load_imm, NaN-corner reduction of interval products, and - for the branch-free "
+        "arithmetic and mask clauses of both back ends - symbolic lane semantics compared with the opcode's closed form, also "
+        "with the output aliased to an operand. The aarch64 code is never compiled on the x86_64 host: static analysis is all that sees it.",
+        "static analysis: table-agreement lint + dataflow / symbolic-lane abstract interpretation of hand-written assembly (x86_64 and aarch64)",
     ),
     "C04": _c(
         "Static analysis of VmData::simplify: exactly one choice consumed per choice op on every structured path "
         "(including the inactive-skip path), Left/Right/Both continue with the first/second/both operands, every surviving "
         "op renames its output and all register operands (a kept operand is copied from its remapped register or aliased to "
         "the new index), order parity of tape and choice walks, op accounting counts every output, result shares the parent's "
-        "variable map; interval min/max choices are Left/Right only for strictly separated operands.",
+        "variable map; interval min/max choices are Left/Right only for strictly separated operands; the native choice protocol "
+        "of the x86_64 and aarch64 tracing assemblers on every path (one choice recorded, flag iff decided, pointer advanced once, "
+        "value = chosen operand, NaN never decided); copy ops of simplified tapes in every evaluator.",
         "static analysis: path/pairing and role-consistency lint over simplify's match arms",
     ),
     "C20": _c(
         "Static analysis of the two interpreter tracing loops: every choice arm records the choice half of the very call "
         "whose value it stores, advances the choice iterator once, and derives the simplify flag from that choice; "
-        "non-choice arms never touch either; the trace is returned iff the flag is set.",
+        "non-choice arms never touch either; the trace is returned iff the flag is set; the interval choice functions answer "
+        "(NaN, Both) before deciding anything; the x86_64 and aarch64 native protocols record the same choices on every path "
+        "(strict, NaN-false branch conditions); advertised sizes / maps / counts are copied from their namesakes.",
         "static analysis: per-arm pairing lint (choice iterator protocol) and return-shape guard",
     ),
 }
@@ -44,7 +54,9 @@ CLAIMS.update({
         "Static analysis of the interval arithmetic: every monotone op takes each result bound from the bound its "
         "monotonicity dictates (variance-directed bound selection, through local definitions), the interval interpreter "
         "loop and the x86_64 interval assembler (dataflow: write discipline, alias/immediate hazards, call-helper copy "
-        "propagation, choice protocol, callbacks, sibling constants) and the homogeneous transform of boxes.",
+        "propagation, choice protocol, callbacks, sibling constants), the aarch64 interval assembler (same dataflow; bounds of the "
+        "branch-free clauses, all four corner products reduced NaN-safely, domain guards of recip / div / sqrt, abs / square "
+        "per sign class by symbolic lanes), the WGSL interval operations on lane summaries, and the homogeneous transform of boxes.",
         "static analysis: variance/role lint over the syntax tree + dataflow over the hand-written assembly",
     ),
     "C05": _c(
@@ -53,7 +65,8 @@ CLAIMS.update({
         "return one operand whole under a value-only condition; every Context::deriv arm equals the chain rule, zero, or "
         "(finite ordering / sign-class enumeration over the builder DSL, incl. the div_euclid emulation of Mod) the selected "
         "operand's derivative; deriv's cache is keyed by the node being differentiated; gradient interpreter loop; "
-        "Transformable for Grad; x86_64 gradient assembler dataflow.",
+        "Transformable for Grad; x86_64 and aarch64 gradient assembler dataflow, and their add / sub / neg / mul / div / sqrt / "
+        "square / recip (aarch64 also abs / min / max) clauses against the chain rule on symbolic lanes.",
         "static analysis: expression-identity obligations between source expressions (sympy) + table lint + asm dataflow",
     ),
     "C06": _c(
@@ -79,7 +92,9 @@ CLAIMS.update({
         "Static analysis: all eight evaluators check their arguments first and propagate the error; a float-class "
         "abstract interpretation (nine classes per bound, every well-formed assignment, three-valued guards) shows that no "
         "analysed Interval::new site can receive one NaN and one non-NaN bound; unreachable!() defaults are justified by the "
-        "range of their scrutinee; panic-capable sites in the per-op data path equal a justified inventory; buffers are sized first.",
+        "range of their scrutinee; panic-capable sites in the per-op data path equal a justified inventory; buffers are sized first; "
+        "consumers decide only under strict comparisons; native call helpers (x86_64, aarch64) restore every pointer and register, "
+        "aarch64 branches stay inside their clause and callee-saved registers are back at `ret`.",
         "static analysis: float-class abstract interpretation of interval constructors + dominance/inventory lints",
     ),
     "C12": _c(
@@ -101,7 +116,8 @@ CLAIMS.update({
         "Static analysis: X/Y/Z and free variables are bound by identity at the variable's own index in both shape "
         "evaluators, the transform is applied in axis order, VarMap assigns an index once (get_or_insert) and only in "
         "insert, missing variables and short/ragged argument lists are errors, and Transformable for f32/Interval/Grad are "
-        "the same homogeneous transform.",
+        "the same homogeneous transform; native code (x86_64, aarch64) addresses slot i at i x bytes-per-slot; fresh variables "
+        "draw their index from a process-wide source.",
         "static analysis: axis/role-consistency and sibling-agreement lint",
     ),
     "C15": _c(
@@ -114,7 +130,8 @@ CLAIMS.update({
     "C16": _c(
         "Static analysis with an algebraic normaliser: named axes/planes denote what their names say, each primitive and "
         "CSG combinator equals its documented closed form (sympy identity), transforms apply the inverse of their action "
-        "on the axis their name says, and RevolveY's Move/remap/Move composition is a revolve about x = offset.",
+        "on the axis their name says, RevolveY's Move/remap/Move composition is a revolve about x = offset, Blend is the smooth "
+        "minimum under exactly radius > 0, ReflectXY swaps x and y, every shape has a rule, and nested transforms compose (importer frames).",
         "static analysis: expression-identity obligations between source expressions and documented closed forms (sympy)",
     ),
 })
@@ -127,7 +144,8 @@ CLAIMS.update({
         "covers all 8 children / 12 faces / 6 edges, the multithreaded merge shifts leaf and branch indices by their own "
         "prefix-sum offsets, cells are full/empty only under strict interval guards and leaf corner masks are by identity; "
         "collapse guards (a multi-vertex child is never collapsed, a NaN gradient lane never enters the QEF and marks the leaf "
-        "with the sentinel merge refuses). Manifoldness, QEF placement and the generated tables are out of static reach.",
+        "with the sentinel merge refuses); finished vertices return through the projective map and the sign of its determinant "
+        "reaches the triangle order. Manifoldness, QEF placement and the generated tables are out of static reach.",
         "static analysis: lattice-geometry consistency of the recursive dual walk + index/guard lints",
     ),
     "C09": _c(
@@ -143,14 +161,16 @@ CLAIMS.update({
         "operand orders with operands in source order (macro bodies and invocations), all six comparisons are registered to "
         "the rejecting functions, the map form and the chained form of a constructor derive every field identically "
         "(default as hint / default when absent / error), and coercion tables map array indices, names and constants to "
-        "their namesakes. The reflection-driven overload dispatch on argument types is out of static reach.",
+        "their namesakes; script names take precedence over engine fallbacks; registration and classification order; the "
+        "engine's limits are the documented ones. The reflection-driven overload dispatch on argument types is out of static reach.",
         "static analysis: registration-table agreement and sibling-builder agreement lint (including macro token streams)",
     ),
     "C18": _c(
         "Static analysis of the view types: world_to_model is translate x rotate x scale of the view's own components, "
         "each manipulation writes only its own fields (write-set inventory), changed flags compare old with new before "
         "assigning, View2/View3 siblings agree modulo dimension, zoom re-centres through the full matrix, yaw wraps and "
-        "pitch clamps the whole sum, canvases adopt the image size before converting cursor positions.",
+        "pitch clamps the whole sum, canvases adopt the image size before converting cursor positions, the changed flag collects "
+        "only drag / zoom results, a zoom during a pan refreshes the stored handle.",
         "static analysis: write-set, sibling-agreement and ordering lint",
     ),
     "C19": _c(
@@ -173,7 +193,9 @@ ENGINES = [
      "kind_free_text": "syn-based parser that dumps every /repo source file as a JSON syntax tree (no evaluation)"},
     {"name": "fvlint", "path": "fv", "serves_properties": ["C%02d" % i for i in range(1, 21)],
      "kind_free_text": "repository-specific static rules (Python) over the syntax trees: table agreement, role/axis "
-     "consistency, sibling agreement, pairing/protocol, field coverage, guard shape"},
+     "consistency, sibling agreement, pairing/protocol, field coverage, guard shape; dataflow and symbolic-lane "
+     "interpretation of the x86_64 and aarch64 dynasm clauses (fv/asm*.py, fv/a64*.py, fv/x86sem.py); float-class abstract "
+     "interpretation (fv/nanflow.py); sympy identities (fv/sym.py); WGSL front end (fv/wgsl*.py)"},
 ]
 
 NOTES = (
